@@ -146,10 +146,22 @@ func (c *FnCtx) computeLoopFrame(li *loopInfo) *loopFrame {
 					}
 					continue
 				}
-				// everything a call may touch is coarse
+				// a contracted callee whose modifies clauses are plain slice/pointer parameters writes
+				// exactly those arguments; everything else a call may touch is coarse
 				tmpL := map[*ssa.Alloc]bool{}
 				tmpH := map[string]bool{}
 				c.instrMods(in, tmpL, tmpH)
+				if sites, ok := c.preciseCallSites(common, li); ok {
+					for k, wss := range sites {
+						for _, ws := range wss {
+							add(k, ws)
+							if ws.ref != nil && !ws.isSlice {
+								lf.wholeWrite[k] = true
+							}
+						}
+						delete(tmpH, k)
+					}
+				}
 				for k := range tmpH {
 					if k != nextKey {
 						lf.coarse[k] = true
@@ -351,4 +363,96 @@ func frameFact(newH, oldH Term, bound Term, targets []Term) Term {
 	}
 	return Term{fmt.Sprintf("(forall ((p! Int)) (! (=> %s (= (select %s p!) (select %s p!))) :pattern ((select %s p!))))",
 		and(conds...).S, newH.S, oldH.S, newH.S), SBool}
+}
+
+// preciseCallSites maps the modifies clauses of a contracted callee to write sites, when every clause
+// is a plain parameter name of slice or pointer type.
+func (c *FnCtx) preciseCallSites(common *ssa.CallCommon, li *loopInfo) (map[string][]writeSite, bool) {
+	spec := c.calleeSpec(common)
+	if spec == nil || len(spec.Modifies) == 0 {
+		return nil, false
+	}
+	obj := c.calleeObj(common)
+	var sig *types.Signature
+	if obj != nil {
+		sig = obj.Type().(*types.Signature)
+	} else {
+		sig = common.Signature()
+	}
+	names := calleeParamNames(spec, sig, common.IsInvoke())
+	ptypes := calleeParamTypes(sig)
+	var args []ssa.Value
+	if common.IsInvoke() {
+		args = append(args, common.Value)
+	}
+	args = append(args, common.Args...)
+	out := map[string][]writeSite{}
+	for _, m := range spec.Modifies {
+		id, ok := m.E.(*EIdent)
+		if !ok {
+			return nil, false
+		}
+		idx := -1
+		for i, n := range names {
+			if n == id.Name {
+				idx = i
+			}
+		}
+		if idx < 0 || idx >= len(args) || idx >= len(ptypes) {
+			return nil, false
+		}
+		a := args[idx]
+		switch tt := types.Unalias(ptypes[idx]).Underlying().(type) {
+		case *types.Slice:
+			k, _ := c.g.elemHeapKey(tt.Elem())
+			if c.freshSliceInLoop(a, li, 0) {
+				out[k] = append(out[k], writeSite{})
+			} else {
+				out[k] = append(out[k], writeSite{ref: a, isSlice: true})
+			}
+		case *types.Pointer:
+			k, _ := c.g.heapKeyFor(tt.Elem())
+			out[k] = append(out[k], writeSite{ref: a})
+		default:
+			return nil, false
+		}
+	}
+	return out, true
+}
+
+// freshSliceInLoop: v is (a reslice of) a slice made inside the loop, possibly through a local that is
+// declared in the loop and only ever assigned such slices.
+func (c *FnCtx) freshSliceInLoop(v ssa.Value, li *loopInfo, depth int) bool {
+	if depth > 4 {
+		return false
+	}
+	switch x := v.(type) {
+	case *ssa.MakeSlice:
+		return li.blocks[x.Block()]
+	case *ssa.Slice:
+		return c.freshSliceInLoop(x.X, li, depth+1)
+	case *ssa.UnOp:
+		if x.Op != token.MUL {
+			return false
+		}
+		a, ok := x.X.(*ssa.Alloc)
+		if !ok || a.Heap || !li.blocks[a.Block()] {
+			return false
+		}
+		n := 0
+		for _, r := range *a.Referrers() {
+			switch s := r.(type) {
+			case *ssa.Store:
+				if s.Addr != a || !c.freshSliceInLoop(s.Val, li, depth+1) {
+					return false
+				}
+				n++
+			case *ssa.UnOp, *ssa.DebugRef:
+			default:
+				return false
+			}
+		}
+		return n > 0
+	}
+	return false
 }
